@@ -232,12 +232,15 @@ func (config Config) NewSession(nic string) (session *Session, err error) {
 // Close stop all session goroutines and close notification channel and the underlaying raw connection.
 // The session is no longer valid after calling Close().
 func (h *Session) Close() {
+	h.mutex.Lock() // notifications are sent under the read lock: never close the channel under a sender
 	if h.closed {
+		h.mutex.Unlock()
 		return
 	}
 	h.closed = true
 	close(h.closeChan)
 	close(h.C)
+	h.mutex.Unlock()
 	h.Conn.Close()
 	time.Sleep(time.Second) // give time for goroutines to end
 }
